@@ -13,3 +13,8 @@ add("C04", "model_checking",
     "Every program of the scope matrix (each block first/third-party with a fact, a rule and a check of each kind with 1-2 alternatives; authorizer fact, rule, check, ordered allow/deny policies; every scope position enumerated) is authorized by the real code and by the reference interpreter R-dl; decisions (policy index, ordered failed-check list), per-origin worlds and query/query_all results must be equal. R-dl must first reproduce every validation of samples.json.",
     "R-dl (Appendix A of DESIGN.md) is the definition of the semantics; error-free programs, non-binding limits; world read through print_world + parser.",
     "DESIGN.md §3 C04")
+add("C05", "model_checking",
+    "bounded-exhaustive enumeration of Datalog worlds against a naive reference fixpoint, plus exhaustive insertion-order permutations and hash-order exploration through a controlled iteration-order seam",
+    "Worlds are built through the public datalog::World API from every rule template x owner x trusted set x fact base, all template pairs, and the full origin-assignment matrix for joins; the engine's final (origin set, fact) set must equal the reference least fixpoint exactly, for every insertion order of facts and rules and every explored iteration order of the hash-based stores (all rankings of small key universes, seeded orders beyond); query_rule / query_match / query_match_all are compared on the final world.",
+    "R-dl fixpoint is the definition; hash order modelled as one global key ranking per execution (H1 seam, feature verif-hooks); bounded to <= 6 facts, <= 6 rules per world.",
+    "DESIGN.md §3 C05")
